@@ -21,6 +21,109 @@ from elementpath import XPathContext, get_node_tree
 from elementpath.exceptions import ElementPathError
 from elementpath.xpath_nodes import DocumentNode, ElementNode, NamespaceNode
 
+# ---- deductive: the sibling axes of the dynamic context (real code of XPathContext.iter_siblings) ------------------------------------
+import z3                                                        # noqa: E402
+from pyvc.values import *                                        # noqa: E402,F401
+from pyvc.contract import Contract, Case                         # noqa: E402
+from pyvc.interp import LoopSpec                                 # noqa: E402
+from pyvc.specprims import *                                     # noqa: E402,F401
+from pyvc import models as _models                               # noqa: E402
+from elementpath import XPathContext as _XPathContext            # noqa: E402
+from elementpath.xpath_nodes import XPathNode as _XPathNode, AttributeNode as _AttributeNode, NamespaceNode as _NamespaceNode   # noqa: E402
+
+
+def siblings_case(axis):
+    """context.item = S[p], one of the children S of its parent (arbitrary list of opaque, pairwise distinct-from-item nodes); the context has a
+    document; the item is a child node (element, text, comment, PI), not an attribute or a namespace node."""
+    def setup(S, ex):
+        sibs = S.seq('S', K_ITEM)
+        p = S.int('p')
+        item = sibs.get(p.t)
+        axis0 = S.item('axis0')
+        ctx = VObj(_XPathContext, {'item': item, 'axis': axis0, 'document': VObj(_XPathNode, {}, name='document'), 'root': VObj(_XPathNode, {}, name='root')},
+                   name='self')
+
+        def isinstance_hook(ex, *rest):
+            if len(rest) == 2:
+                return None
+            node_, a, kw = rest
+            v, c = a
+            if isinstance(v, VItem):
+                classes = [c.obj] if isinstance(c, VNative) and not isinstance(c.obj, tuple) else list(c.obj) if isinstance(c, VNative) else \
+                    [x.obj for x in c.items]
+                if classes == [_XPathNode]:
+                    return VBool(True)
+                if set(classes) == {_AttributeNode, _NamespaceNode}:
+                    return VBool(False)
+            return VBool(_models.isinstance_(ex, v, c))
+        attr_hooks = {'item.parent': lambda ex, env: sibs}
+        args = [ctx] if axis is None else [ctx, lift(axis)]
+        return Case(args, hooks={'isinstance': isinstance_hook}, attr_hooks=attr_hooks, names={'S': sibs, 'p': p, 'ctx': ctx, 'item0': item, 'axis0': axis0})
+    return setup
+
+
+_SIB_PRE = ["0 <= p and p < len(S)", "forall_range(0, len(S), lambda i: implies(S[i] == item0, i == p))"]
+CONTRACTS = [
+    Contract('XPathContext.iter_siblings.following', 'C01', lambda: _XPathContext.iter_siblings, siblings_case(None), pre=_SIB_PRE,
+             post=[('yields_exactly_the_following_siblings_in_document_order',
+                    "returned and len(out) == len(S) - p - 1 and forall_range(0, len(out), lambda j: out[j] == S[p + 1 + j])"),
+                   ('focus_restored', "ctx.item == item0 and ctx.axis == axis0")],
+             loops={1: LoopSpec(["_i1 <= len(S)", "follows == (_i1 > p)", "len(out) == (max(_i1 - p - 1, 0))",
+                                 "forall_range(0, len(out), lambda j: out[j] == S[p + 1 + j])"])},
+             generator=K_ITEM, native=None, expect_min_obligations=4),
+    Contract('XPathContext.iter_siblings.preceding', 'C01', lambda: _XPathContext.iter_siblings, siblings_case('preceding-sibling'), pre=_SIB_PRE,
+             post=[('yields_exactly_the_preceding_siblings_in_document_order',
+                    "returned and len(out) == p and forall_range(0, p, lambda j: out[j] == S[j])"),
+                   ('focus_restored', "ctx.item == item0 and ctx.axis == axis0")],
+             loops={0: LoopSpec(["_i0 <= p", "len(out) == _i0", "forall_range(0, _i0, lambda j: out[j] == S[j])", "forall_range(0, _i0, lambda j: S[j] != item0)"])},
+             generator=K_ITEM, native=None, expect_min_obligations=4,
+             notes=['the reverse numbering of preceding-sibling::x[n] is done by XPathAxis.select_with_focus (contract in C08) on this document-order list']),
+]
+
+def simple_axis_case(kind):
+    def setup(S, ex):
+        from elementpath.xpath_nodes import ElementNode as _E
+        attrs = S.seq('A', K_ITEM)
+        item = S.item('item0')
+        parent = S.item('parent0')
+        axis0 = S.item('axis0')
+        ctx = VObj(_XPathContext, {'item': item, 'axis': axis0, 'document': VObj(_XPathNode, {}, name='document'), 'root': VObj(_XPathNode, {}, name='root')},
+                   name='self')
+
+        def isinstance_hook(ex, *rest):
+            if len(rest) == 2:
+                return None
+            node_, a, kw = rest
+            v, c = a
+            if isinstance(v, VItem) and isinstance(c, VNative) and not isinstance(c.obj, tuple):
+                if c.obj is _XPathNode:
+                    return VBool(True)
+                if c.obj is _AttributeNode:
+                    return VBool(False)
+                if c.obj is _E:
+                    return VBool(True)
+            return VBool(_models.isinstance_(ex, v, c))
+        attr_hooks = {'self.item.attributes': lambda ex, env: attrs, 'self.item.parent': lambda ex, env: parent}
+        return Case([ctx], hooks={'isinstance': isinstance_hook}, attr_hooks=attr_hooks,
+                    names={'A': attrs, 'ctx': ctx, 'item0': item, 'axis0': axis0, 'parent0': parent})
+    return setup
+
+
+CONTRACTS += [
+    Contract('XPathContext.iter_attributes.element', 'C01', lambda: _XPathContext.iter_attributes, simple_axis_case('attributes'),
+             post=[('yields_the_attributes_of_the_element_in_order', "returned and len(out) == len(A) and forall_range(0, len(A), lambda j: out[j] == A[j])"),
+                   ('focus_restored', "ctx.item == item0 and ctx.axis == axis0")],
+             loops={0: LoopSpec(["_i0 <= len(A)", "len(out) == _i0", "forall_range(0, _i0, lambda j: out[j] == A[j])"])},
+             generator=K_ITEM, native=None, expect_min_obligations=3),
+    Contract('XPathContext.iter_self', 'C01', lambda: _XPathContext.iter_self, simple_axis_case('self'),
+             post=[('yields_the_context_item_once', "returned and len(out) == 1 and out[0] == item0"), ('focus_restored', "ctx.item == item0 and ctx.axis == axis0")],
+             generator=K_ITEM, native=None, expect_min_obligations=2),
+    Contract('XPathContext.iter_parent', 'C01', lambda: _XPathContext.iter_parent, simple_axis_case('parent'),
+             post=[('yields_the_parent_once', "returned and len(out) == 1 and out[0] == parent0"), ('focus_restored', "ctx.item == item0 and ctx.axis == axis0")],
+             generator=K_ITEM, native=None, expect_min_obligations=2,
+             notes=['case: the context has a document and the item has a parent (an opaque item is never None)']),
+]
+
 BOUNDED_ONLY = ('the axis iterators of XPathContext and the path operators walk ElementTree object graphs outside the deductive subset; their postcondition is '
                 'checked at run time against libxml2 and across parser versions on a stated finite scope (focus numbering: see the C08 contracts)')
 NOT_DECIDED = ['for ALL trees and ALL path expressions: only the stated scope is explored (bounded stand-in)']
